@@ -265,6 +265,43 @@ func c10Value(c *ctx, x uint64) {
 			if err != nil || !bytes.Equal(blk, body) || tot != len(pl) {
 				bad("block-roundtrip", "GetNextBlock", fmt.Sprintf("GetNextBlock(PrependLength(data of %d bytes)+tail) = (%d bytes, %d, %v)", x, len(blk), tot, err))
 			}
+			// the same body handed over in other shapes: a nil slice for the empty body, and a
+			// view into a larger array (spare capacity behind it, which must stay untouched)
+			if x == 0 {
+				pn := varint.PrependLength(nil)
+				if !bytes.Equal(pn, ref) {
+					bad("prepend-length", "PrependLength", fmt.Sprintf("PrependLength(nil) = %x, want the length prefix %x of an empty block", pn, ref))
+				}
+				blk, tot, err := varint.GetNextBlock(append(append([]byte{}, pn...), 0xEE))
+				if err != nil || len(blk) != 0 || tot != len(ref) {
+					bad("block-roundtrip", "GetNextBlock", fmt.Sprintf("GetNextBlock(PrependLength(nil)+tail) = (%d bytes, %d, %v)", len(blk), tot, err))
+				}
+			}
+			if x <= 4096 {
+				arr := make([]byte, int(x)+16)
+				for i := range arr {
+					arr[i] = 0xC3
+				}
+				view := arr[4 : 4+int(x)]
+				copy(view, body)
+				pv := varint.PrependLength(view)
+				if !bytes.Equal(pv, pl) {
+					bad("prepend-length", "PrependLength", "PrependLength of a view with spare capacity differs from PrependLength of an exact copy")
+				}
+				for i := 0; i < 4; i++ {
+					if arr[i] != 0xC3 {
+						bad("prepend-length-writes", "PrependLength", "PrependLength wrote in front of its argument")
+					}
+				}
+				for i := 4 + int(x); i < len(arr); i++ {
+					if arr[i] != 0xC3 {
+						bad("prepend-length-writes", "PrependLength", "PrependLength wrote behind its argument")
+					}
+				}
+				if !bytes.Equal(view, body) {
+					bad("prepend-length-writes", "PrependLength", "PrependLength changed its argument")
+				}
+			}
 		}
 	})
 	b.Distinct([]byte("v"), in)
